@@ -1,17 +1,28 @@
+import os, re
+
 _D = 'AITB.Sampling.'
 
 
-def _classify_crash(cr):
-    # harness case 13 samples the LAST stored row of a sparse matrix with a draw above the row sum:
-    # on the unrepaired code the scan reads past the value array (ASan: heap-buffer-overflow)
-    if cr.get('case') == 13 and 'heap-buffer-overflow' in (cr.get('detail') or ''):
-        return 'sampleProbability_sparse', 'out_of_bounds_read_last_row'
-    return 'C08', cr.get('kind', 'crash')
+def _harness_flags():
+    # the two-argument sampleDirichletDistribution overload only instantiates when the three-argument
+    # one is declared before it (fixes/C08-5); the harness calls it when it can
+    try:
+        src = open(os.path.join(os.environ.get('AITB_REPO', '/repo'), 'include/AIToolbox/Utils/Probability.hpp')).read()
+    except OSError:
+        return ()
+    flags = []
+    if re.search(r'void\s+sampleDirichletDistribution\s*\([^)]*\)\s*;', src):
+        flags.append('-DC08_DIRICHLET_2ARG')
+    # fixes/C08-6: Dirichlet / Beta sample log-gammas through sampleLogGammaDistribution; the harness then replays that helper
+    if re.search(r'double\s+sampleLogGammaDistribution\s*\(', src):
+        flags.append('-DC08_LOG_GAMMA')
+    return tuple(flags)
+
 
 
 SPEC = {
     'id': 'C08',
-    'lean_modules': ['AITB.Props.C08Dense', 'AITB.Props.C08Project', 'AITB.Props.C08Vose', 'AITB.Props.C08', 'AITB.Props.C08Measure', 'AITB.Props.C08Round'],
+    'lean_modules': ['AITB.Props.C08Dense', 'AITB.Props.C08Project', 'AITB.Props.C08Vose', 'AITB.Props.C08', 'AITB.Props.C08Measure', 'AITB.Props.C08Round', 'AITB.Props.C08Models'],
     'theorems': [_D + t for t in [
         # dense inverse-CDF scan (sampleProbability, dense template)
         'dense_in_range', 'dense_preimage', 'dense_interval_length', 'dense_preimage_sum_one',
@@ -52,9 +63,26 @@ SPEC = {
         'sparse_current_selects_exact', 'sparse_current_not_total_selects', 'projectFixed_idempotent',
         # robustness against rounding of the subtraction (|sub a b - (a-b)| <= eps): breakpoints move by <= k*eps; agreement away from breakpoints
         'denseA_round_bounds', 'denseA_round_agrees', 'spacingsA_round', 'makeRandomProbabilityA_round',
+        # round 2: model objects as compositions over the STORED sparse rows; the cooperative factored model (DDN row ids, factored rewards);
+        # gamma-based samplers as functions of positive gamma draws
+        'sampleSRSparse_spec', 'sampleSRSparse_selects', 'sampleSORSparse_spec', 'sampleSORSparse_state_in_support', 'sampleSORSparse_obs_selects',
+        'sampleORSparse_selects', 'sampleORSparse_reward', 'sampleORSparse_in_support', 'sparseFixed_eq_dense_expansion', 'sampleSRSparse_eq_dense',
+        'ddnStartIds_getD', 'ddnStartIds_last', 'ddnStartIds_length', 'ddnGetId_lt_size', 'ddnGetId_in_block', 'ddnGetId_lt_size_valid',
+        'ddnGetId_injective_on_action_blocks', 'coopSampleS_length', 'coopSampleS_getD', 'coopSampleS_in_range', 'coopSampleS_factor_selects',
+        'coopSampleS_other_factor', 'coop_rewards_sum', 'coop_same_state', 'coop_reward_independent_of_draws',
+        'dirichlet_valid', 'dirichlet_isProb', 'dirichlet_valid_nonneg', 'dirichlet_all_zero_invalid', 'dirichlet_scale_invariant',
+        'beta_in_unit', 'beta_complement', 'beta_eq_dirichlet', 'beta_scale_invariant', 'dirichlet_valid_of_max_one', 'dirichlet_max_shift',
+        # joint distributions: the draw vectors mapped to an outcome form a box whose volume is the product of the table entries
+        'sampleSOR_selects_jointly', 'coopSampleS_selects_jointly', 'sampleSORSparse_selects_jointly',
+        'sampleSOR_box', 'sampleSOR_box_area', 'sampleSORSparse_box', 'coopSampleS_box', 'ddnTransitionProbability_nonneg',
+        # exact-arithmetic justification of fixes/C08-4 (scale by the largest entry, then normalise)
+        'normalize_scaled_eq',
+        # end-to-end statements for the code as it is now (constructor + sampler, tolerance, double avg)
+        'vose_sampler_in_range', 'vose_selects_valid', 'vose_selects_double_avg', 'sampleSRSparse_selects_valid', 'coopSampleS_factor_selects_valid',
+        'sampleSOR_obs_selects_valid', 'sampleSORSparse_obs_selects_valid', 'sampleORSparse_selects_valid', 'dirichlet_as_projection',
     ]],
     'harness': 'harness/c08.cpp',
-    'classify_crash': _classify_crash,
+    'harness_flags': _harness_flags(),
     'level': 'proof',
     'timeout': {'quick': 400, 'thorough': 2400},
     'rule': 'seeded distributions (lengths 1..12 quick / 1..64 thorough; zeros anywhere, mass at first/last index, above-average first entry, '
@@ -66,10 +94,16 @@ SPEC = {
                  'makeRandomProbability, VoseAliasSampler::sampleProbability',
                  'src/Utils/Probability.cpp: projectToProbability, VoseAliasSampler::VoseAliasSampler',
                  'src/MDP/Model.cpp, src/MDP/SparseModel.cpp: sampleSR; include/AIToolbox/POMDP/Model.hpp, SparseModel.hpp: sampleSOR, sampleOR (as compositions)',
-                 'src/Factored/MDP/CooperativeModel.cpp: sampleSR as a per-factor composition (modelled and proved in range; not driven by the harness)'],
+                 'src/Factored/MDP/CooperativeModel.cpp: sampleSR, sampleSRs (per-factor scans, factored reward, per-basis rewards); '
+                 'src/Factored/Utils/BayesianNetwork.cpp: DDNGraph::push (startIds_), getIds, getId, DDN::getTransitionProbability; '
+                 'src/Factored/Utils/FactoredMatrix.cpp: FactoredMatrix2D::getValue — all driven by the harness with the whole model on the protocol line',
+                 'src/MDP/SparseModel.cpp sampleSR, include/AIToolbox/POMDP/SparseModel.hpp sampleSOR/sampleOR over the stored sparse rows and the stored reward table',
+                 'include/AIToolbox/Utils/Probability.hpp: sampleDirichletDistribution, sampleBetaDistribution as functions of their gamma draws'],
     'assumptions': ['libstdc++ std::uniform_real_distribution<double>(a,b) draws one canonical u in [0,1) per call (2 engine words) and returns a+u*(b-a); the harness measures the value it returns for the scripted words, the driver checks the word count',
                     'std::sort is modelled by List.mergeSort (result depends only on the multiset: randomProbability_perm_invariant)',
                     'VoseAliasSampler table is private: reconstructed behaviourally (switch point of each column found by bisection), cross-checked by vsample lines',
                     'avg = 1.0/n is passed to the model as the exact double the code computes; vose_correct instantiates avg = 1/n, vose_correct_any_avg / vose_correct_double_avg bound the effect of avg = fl(1/n)',
-                    'Eigen compressed row-major storage: InnerIterator of a row is an index into flat arrays (model of the walk-off)'],
+                    'Eigen compressed row-major storage: InnerIterator of a row visits its stored entries in column order',
+                    'std::gamma_distribution is not modelled: its draws are replayed from a copy of the engine and assumed positive and finite (draws that underflow to 0 are skipped and counted)',
+                    'projectToProbability: finite inputs only (NaN / +-inf entries are outside the quantifier, see docs/C08.md); overflow of the double sum is finding C08-project-sum-overflow'],
 }
